@@ -443,6 +443,11 @@ func run(c fw.Case, tier string, rec *fw.Recorder) {
 					}
 				}
 			}
+			for _, o := range ops {
+				if o.Kind == "ins" && strings.HasPrefix(w.vars[o.Variant].name, "other/foreign-lookalike:") {
+					rec.Count("inserts_of_foreign_lookalike_message_types", 1)
+				}
+			}
 			rec.Op(ops)
 			rec.Count("histories_random", 1)
 			if h < 2 {
@@ -512,7 +517,7 @@ func init() {
 		Level: "exploration",
 		Rule: "histories of insert/remove/select against the real DefaultPriorityMempool with a map reference model; " +
 			"exhaustive part = every history of <= depth ops (quick 5, thorough 6) over 2 senders x seq{0,1} x 5 classes inserts + 4 removes + select, each followed by a final select and drain; " +
-			"random part = seeded histories over up to 8 senders, 5 sequence numbers (small consecutive ones, and in every third history values spread over the whole uint64 range: 2^31, 2^32, 2^63-1, 2^63, 2^64-1 ...), 14 tx realisations (incl. multi-message and other ctx priorities). " +
+			"random part = seeded histories over up to 8 senders, 5 sequence numbers (small consecutive ones, and in every third history values spread over the whole uint64 range: 2^31, 2^32, 2^63-1, 2^63, 2^64-1 ...), 14 tx realisations (incl. multi-message and other ctx priorities) plus, as ordinary-class realisations, every message type of the wired-in foreign modules (sdk consensus, bank, staking, gov, distribution, slashing, wasm) whose type URL lies outside Paloma's namespace but contains a special module's segment (today: /cosmos.consensus.v1.MsgUpdateParams). " +
 			"distinct_nontrivial = distinct operation sequences in which >= 2 senders insert and the history has >= 2 ops; evaluations = txs yielded by select walks and checked against the oracle",
 		Assumptions: []string{
 			"(sender, sequence) unique among pending txs (inserts that would violate it are skipped) - the property's own precondition",
@@ -523,6 +528,6 @@ func init() {
 		Exhaustive:  func(string) bool { return false },
 		Cases:       cases,
 		Run:         run,
-		MinCounters: []string{"selects", "histories_exhaustive", "histories_random"},
+		MinCounters: []string{"selects", "histories_exhaustive", "histories_random", "inserts_of_foreign_lookalike_message_types"},
 	})
 }
